@@ -46,7 +46,8 @@ Grid(prim) ==
     [] prim = "step_speed" -> [v : V, v_up : {"0", "50", "110"}, rho : Rho \ {"1e-9"}, rho_down : {"0", "33.5", "150"}, Veq : {"0", "60", "102"},
                                lanes : {"2"}, L : {"1", "0.75"}, tau : {"1/200"}, eta : {"60"}, kappa : {"40"}, T : Ts,
                                q_ramp : {"none", "0", "900"}, delta : {"0.0122"}, lanes_drop : {"none", "1", "-1"}, phi : {"2"}, rho_crit : {"33.5"}]
-    [] prim = "controlled_Veq" -> [rho : Rho, v_ctrl : VCtl, alpha : {"0", "0.1"}, v_free : VFree, rho_crit : RhoCr, a : {"1.867"}]
+    [] prim = "controlled_Veq" -> [rho : Rho, v_ctrl : VCtl, alpha : {"0", "0.1"}, v_free : VFree, rho_crit : RhoCr, a : {"1.867"},
+                                   pat : {"all", "first", "last", "outer", "tail"}]
     [] prim = "max" -> [x : {"-5", "0", "1e-9", "7.5", "inf"}]
 VectorPrims == {"get_flow", "step_density", "Veq", "step_speed", "controlled_Veq", "max"}
 ScalarPrims == {"step_queue", "get_mainstream_flow", "get_ramp_flow", "get_simplifiedramp_flow",
@@ -55,6 +56,11 @@ NodePrims == {"get_upstream_flow", "get_upstream_speed", "get_downstream_density
 VecArgs(prim) == CASE prim = "get_flow" -> {"rho", "v"} [] prim = "step_density" -> {"rho", "q", "q_up"} [] prim = "Veq" -> {"rho"}
                    [] prim = "step_speed" -> {"v", "v_up", "rho", "rho_down", "Veq"} [] prim = "controlled_Veq" -> {"rho", "v_ctrl"}
                    [] prim = "max" -> {"x"} [] OTHER -> {}
+
+\* which segments of an n-segment link carry a speed limit under a pattern name (the k-th control value of the
+\* stacked vector belongs to segment k; the harness passes the listed segments and their values only)
+PatSet(pat, n) == CASE pat = "all" -> 1..n [] pat = "first" -> {1} [] pat = "last" -> {n} [] pat = "outer" -> {1, n}
+                    [] OTHER -> {i \in 1..n : i >= n - 1}
 
 \* node rules: sequences of 1..3 values
 NodeCases ==
@@ -106,7 +112,9 @@ Expect(c, k, n) ==
             IN [v |-> PStepDensity(X("rho"), X("q"), X("q_up"), X("lanes"), X("L"), X("T")),
                 s |-> Mx(RAbs(X("rho")), Mx(RAbs(cc (.) X("q")), RAbs(cc (.) X("q_up"))))]
        [] prim = "Veq" -> [v |-> PVeq(X("rho"), X("v_free"), X("rho_crit"), X("a")), s |-> Zero]
-       [] prim = "controlled_Veq" -> [v |-> PCtrlVeq(X("rho"), X("v_ctrl"), X("alpha"), X("v_free"), X("rho_crit"), X("a")), s |-> Zero]
+       [] prim = "controlled_Veq" ->
+            [v |-> IF k \in PatSet(a.pat, n) THEN PCtrlVeq(X("rho"), X("v_ctrl"), X("alpha"), X("v_free"), X("rho_crit"), X("a"))
+                   ELSE PVeq(X("rho"), X("v_free"), X("rho_crit"), X("a")), s |-> Zero]
        [] prim = "max" -> [v |-> RMax(Zero, X("x")), s |-> Zero]
        [] prim = "step_speed" ->
             LET mrg == IF Opt(a.q_ramp) /\ k = 1 THEN PMerge(X("v"), X("rho"), P(a.q_ramp), X("lanes"), X("L"), X("delta"), X("kappa"), X("T")) ELSE Zero
